@@ -8,6 +8,14 @@ package smtp_downstream
 //
 //	C16 down <lmtp> <ep> ; <ep> ... then <after>     ep: U | X | C | G <reply> | E <reply>
 //	                                                  after: ok | M|R|D|B <reply> | S <status> ; <status> ...   (status: ok | <reply>)
+//
+// Round 9: the downstream configured with `auth` (the factory comes from the REAL saslAuthDirective),
+// the AUTH command of the real go-smtp client answered by the scripted server with any reply / dropped /
+// answered with garbage / with a challenge:
+//
+//	C16 dauth <lmtp> <cfg> <ans> ; <ep> ; ... then <after>    cfg: off | plain | fwd | fwd0 | ext   (fwd0: `auth forward`,
+//	                                                           the client of the message did not authenticate)
+//	                                                           ans: ok | A <reply> | drop | junk | chal
 
 import (
 	"context"
@@ -17,6 +25,7 @@ import (
 	"os"
 	"path/filepath"
 	"strings"
+	"sync"
 	"testing"
 
 	"github.com/emersion/go-message/textproto"
@@ -46,6 +55,9 @@ func (e c16EP) String() string {
 }
 
 type c16Down struct {
+	authCfg   string // "" = op `down` (no auth directive at all)
+	authAns   string // ok A drop junk chal
+	authRepl  vc16.Reply
 	lmtp      bool
 	eps       []c16EP
 	after     string // ok M R D B S
@@ -78,13 +90,28 @@ func (h c16Down) Op() string {
 	if h.lmtp {
 		l = 1
 	}
+	if h.authCfg != "" {
+		ans := h.authAns
+		if ans == "A" {
+			ans += " " + h.authRepl.String()
+		}
+		return fmt.Sprintf("C16 dauth %d %s %s ; %s then %s", l, h.authCfg, ans, strings.Join(s, " ; "), a)
+	}
 	return fmt.Sprintf("C16 down %d %s then %s", l, strings.Join(s, " ; "), a)
 }
 
 func c16ParseDown(op string) c16Down {
-	toks := strings.Fields(op)[2:]
+	all := strings.Fields(op)
+	toks := all[2:]
 	h := c16Down{lmtp: toks[0] == "1"}
 	toks = toks[1:]
+	if all[1] == "dauth" {
+		h.authCfg, h.authAns = toks[0], toks[1]
+		toks = toks[2:]
+		if h.authAns == "A" {
+			h.authRepl, toks = vc16.ParseReply(toks)
+		}
+	}
 	for toks[0] != "then" {
 		switch k := toks[0]; k {
 		case ";":
@@ -153,6 +180,39 @@ func c16RunDown(t *testing.T, out *vh.Out, dir, op string) {
 	if h.lmtp {
 		u.modName = "target.lmtp"
 	}
+	msgMeta := &module.MsgMetadata{ID: "verif"}
+	var authMu sync.Mutex
+	var authLines []string
+	if h.authCfg != "" {
+		args := map[string][]string{"off": {"off"}, "plain": {"plain", "relay-user", "relay-secret"}, "fwd": {"forward"}, "fwd0": {"forward"}, "ext": {"external"}}[h.authCfg]
+		if args == nil {
+			panic("bad auth configuration " + h.authCfg)
+		}
+		f, err := saslAuthDirective(nil, config.Node{Name: "auth", Args: args})
+		if err != nil {
+			t.Fatal(err)
+		}
+		if f != nil {
+			u.saslFactory = f.(saslClientFactory)
+		}
+		if h.authCfg == "fwd" {
+			msgMeta.Conn = &module.ConnState{AuthUser: "client-user", AuthPassword: "client-secret"}
+		}
+		sc.OnAuth = func(line string) {
+			authMu.Lock()
+			authLines = append(authLines, line)
+			authMu.Unlock()
+		}
+		switch h.authAns {
+		case "ok":
+		case "A":
+			sc.AuthReply = &h.authRepl
+		case "drop", "junk", "chal":
+			sc.AuthMode = h.authAns
+		default:
+			panic("bad AUTH answer " + h.authAns)
+		}
+	}
 	var listeners []net.Listener
 	defer func() {
 		for _, l := range listeners {
@@ -206,7 +266,7 @@ func c16RunDown(t *testing.T, out *vh.Out, dir, op string) {
 	}
 	results := make([]error, nrcpt)
 	ctx := context.Background()
-	d, err := u.Start(ctx, &module.MsgMetadata{ID: "verif"}, "sender@example.org")
+	d, err := u.Start(ctx, msgMeta, "sender@example.org")
 	single := false // the failure ends the whole transaction (one result)
 	if err != nil {
 		results, single = []error{err}, true
@@ -253,6 +313,36 @@ func c16RunDown(t *testing.T, out *vh.Out, dir, op string) {
 		out.Stat(fmt.Sprintf("down.connected.lmtp-%v.then-%s", h.lmtp, h.after))
 	}
 
+	// the AUTH step: did it take place, did it fail
+	authFails := false
+	if h.authCfg != "" && connected >= 0 {
+		authMu.Lock()
+		seenAuth := append([]string{}, authLines...)
+		authMu.Unlock()
+		wantMech := map[string]string{"plain": "AUTH PLAIN ", "fwd": "AUTH PLAIN ", "ext": "AUTH EXTERNAL"}[h.authCfg]
+		switch {
+		case wantMech == "" && len(seenAuth) != 0:
+			out.Violation("C16/downstream-auth-unexpected", op, fmt.Sprintf("AUTH sent although none can be: %q", seenAuth))
+		case wantMech != "" && (len(seenAuth) != 1 || !strings.HasPrefix(seenAuth[0], wantMech)):
+			out.Violation("C16/downstream-auth-not-attempted", op, fmt.Sprintf("the next hop saw %q, configured: auth %s", seenAuth, h.authCfg))
+		}
+		authFails = h.authCfg == "fwd0" || (wantMech != "" && h.authAns != "ok")
+		out.Stat("dauth.cfg." + h.authCfg)
+		if wantMech != "" {
+			k := h.authAns
+			if k == "A" {
+				k = fmt.Sprintf("reply-class%d", h.authRepl.Code/100)
+				if !h.authRepl.Ok() {
+					k += "-incoherent"
+				}
+			}
+			out.Stat("dauth.answer." + k)
+		}
+		if authFails && !single {
+			out.Violation("C16/downstream-auth-failure-ignored", op, "the AUTH step failed and the transaction went on")
+		}
+	}
+
 	var obs []string
 	for i, e := range results {
 		if e == nil {
@@ -266,6 +356,11 @@ func c16RunDown(t *testing.T, out *vh.Out, dir, op string) {
 		obs = append(obs, seen.Canon(nil))
 		inputOk := true
 		switch {
+		case authFails:
+			// the reply of the next hop to AUTH (or a failure maddy composes itself)
+			if h.authCfg != "fwd0" && h.authAns == "A" {
+				inputOk = h.authRepl.Ok()
+			}
 		case connected < 0:
 			// the failure of the last endpoint: a relayed greeting / EHLO reply, or a network error
 			if last := h.eps[len(h.eps)-1]; last.kind == "G" || last.kind == "E" {
@@ -279,6 +374,15 @@ func c16RunDown(t *testing.T, out *vh.Out, dir, op string) {
 			inputOk = h.afterRepl.Ok()
 		}
 		vc16.Check(out, op, seen, inputOk)
+		if authFails && h.authCfg != "fwd0" && h.authAns == "A" && inputOk && h.authRepl.Code/100 == 4 && seen.Stored != nil && seen.Ep0 != nil {
+			// ground truth of the script: the next hop said "not now" to AUTH
+			if !seen.Retried {
+				out.Violation("C16/queue-temporary-not-retried", op, fmt.Sprintf("AUTH was answered %d by the next hop, the queue does not retry", h.authRepl.Code))
+			}
+			if seen.Ep0.Code/100 != 4 {
+				out.Violation("C16/endpoint-temporary-not-4yz", op, fmt.Sprintf("AUTH was answered %d by the next hop, reply %d", h.authRepl.Code, seen.Ep0.Code))
+			}
+		}
 		out.Stat(fmt.Sprintf("down.reply-class%d", seen.Stored.Code/100))
 	}
 	out.Corr(op, strings.Join(obs, " || "))
@@ -345,6 +449,52 @@ func c16SystematicDown() []string {
 	return ops
 }
 
+// c16SystematicAuth: every auth configuration x every kind of answer to AUTH (accepted, every reply
+// class with and without enhanced code, 552 which nothing rewrites here, a 2xx that is not 235, the
+// exchange broken in three ways) on target.smtp and target.lmtp, behind a dead endpoint too.
+func c16SystematicAuth() []string {
+	msg := vh.HexRunes("Authentication credentials invalid")
+	answers := []string{"ok", "drop", "junk", "chal"}
+	for _, rp := range []string{"535 5 7 8", "535 0 0 0", "534 5 7 9", "538 5 7 11", "554 5 7 0", "550 5 7 1", "504 5 5 4", "501 5 5 2", "500 0 0 0", "552 5 2 2", "530 5 7 0",
+		"454 4 7 0", "454 0 0 0", "451 4 7 0", "421 4 4 2", "450 4 0 0", "432 4 7 12", "250 2 0 0", "535 4 7 8", "454 5 7 0"} {
+		answers = append(answers, "A "+rp+" "+msg)
+	}
+	var ops []string
+	for _, l := range []string{"0", "1"} {
+		for _, cfg := range []string{"plain", "fwd", "ext"} {
+			for i, a := range answers {
+				eps := []string{"U", "X ; U", "C ; U"}[i%3]
+				ops = append(ops, "C16 dauth "+l+" "+cfg+" "+a+" ; "+eps+" then ok")
+			}
+		}
+		for _, a := range []string{"ok", "A 535 5 7 8 " + msg, "drop"} {
+			ops = append(ops, "C16 dauth "+l+" fwd0 "+a+" ; U then ok", "C16 dauth "+l+" off "+a+" ; U then ok", "C16 dauth "+l+" plain "+a+" ; X then ok")
+		}
+		// AUTH accepted, the transaction fails later
+		ops = append(ops, "C16 dauth "+l+" plain ok ; U then M 450 4 2 0 "+msg, "C16 dauth "+l+" fwd ok ; U then R 550 5 1 1 "+msg)
+	}
+	ops = append(ops, "C16 dauth 1 plain ok ; U then S ok ; 452 4 2 2 "+msg, "C16 dauth 1 plain A 454 4 7 0 "+msg+" ; U then S ok ; 452 4 2 2 "+msg)
+	return ops
+}
+
+func c16GenAuth(r *vh.Rng) c16Down {
+	h := c16GenDown(r)
+	h.authCfg = []string{"plain", "plain", "fwd", "fwd", "ext", "fwd0", "off"}[r.Intn(7)]
+	switch p := r.Intn(100); {
+	case p < 25:
+		h.authAns = "ok"
+	case p < 85:
+		h.authAns, h.authRepl = "A", vc16.GenReply(r, true)
+		if r.Chance(40) {
+			c := [][4]int{{535, 5, 7, 8}, {454, 4, 7, 0}, {534, 5, 7, 9}, {451, 4, 7, 0}, {535, 0, 0, 0}, {454, 0, 0, 0}}[r.Intn(6)]
+			h.authRepl.Code, h.authRepl.Ench = c[0], [3]int{c[1], c[2], c[3]}
+		}
+	default:
+		h.authAns = []string{"drop", "junk", "chal"}[r.Intn(3)]
+	}
+	return h
+}
+
 func TestVerifC16Downstream(t *testing.T) {
 	out := vh.Open("c16_downstream")
 	defer out.Close()
@@ -360,7 +510,7 @@ func TestVerifC16Downstream(t *testing.T) {
 	defer os.RemoveAll(dir)
 	if ops := vh.Replay(); ops != nil {
 		for _, op := range ops {
-			if strings.HasPrefix(op, "C16 down ") {
+			if strings.HasPrefix(op, "C16 down ") || strings.HasPrefix(op, "C16 dauth ") {
 				c16RunDown(t, out, dir, op)
 			}
 		}
@@ -372,5 +522,11 @@ func TestVerifC16Downstream(t *testing.T) {
 	r := vh.NewRng(vh.Seed() + 1617)
 	for i := 0; i < vh.N(4000)/16; i++ {
 		c16RunDown(t, out, dir, c16GenDown(r).Op())
+	}
+	for _, op := range c16SystematicAuth() {
+		c16RunDown(t, out, dir, op)
+	}
+	for i := 0; i < vh.N(4000)/32; i++ {
+		c16RunDown(t, out, dir, c16GenAuth(r).Op())
 	}
 }
